@@ -449,6 +449,55 @@ func trees(depth int) []val[Tr] {
 	return all
 }
 
+// literalOperands: = and <> whose operands are written as LITERALS in the Folang source (tuple,
+// record, slice, constructor literals over parameters): whatever the compiler makes of such a
+// comparison, it must be the structural one and <> its negation.
+func literalOperands() {
+	type fn struct {
+		name string
+		f    func(int, string, int, string) bool
+		want func(a int, b string, c int, d string) bool
+	}
+	fns := []fn{
+		{"(a, b) = (c, d)", EqTupLit, func(a int, b string, c int, d string) bool { return a == c && b == d }},
+		{"(a, b) <> (c, d)", NeTupLit, func(a int, b string, c int, d string) bool { return !(a == c && b == d) }},
+		{"(a, b, a) = (c, d, a)", EqTup3Lit, func(a int, b string, c int, d string) bool { return a == c && b == d }},
+		{"(a, b, a) <> (c, d, a)", NeTup3Lit, func(a int, b string, c int, d string) bool { return !(a == c && b == d) }},
+		{"{A=a; B=b} = {A=c; B=d}", EqRecLit, func(a int, b string, c int, d string) bool { return a == c && b == d }},
+		{"{A=a; B=b} <> {A=c; B=d}", NeRecLit, func(a int, b string, c int, d string) bool { return !(a == c && b == d) }},
+		{"[b; d] = [d; b]", EqSliceLit, func(a int, b string, c int, d string) bool { return b == d }},
+		{"[a; c] <> [c; a]", NeSliceLit, func(a int, b string, c int, d string) bool { return a != c }},
+		{"WT (a, UA c) = WT (c, UA a)", EqCtorLit, func(a int, b string, c int, d string) bool { return a == c }},
+		{"WT (a, UA c) <> WT (c, UA a)", NeCtorLit, func(a int, b string, c int, d string) bool { return a != c }},
+		{"((a, b), [c]) <> ((c, d), [a])", NeNestedLit, func(a int, b string, c int, d string) bool { return !(a == c && b == d) }},
+	}
+	for _, f := range fns {
+		for _, a := range []int{0, 1} {
+			for _, b := range []string{"", "x"} {
+				for _, c := range []int{0, 1} {
+					for _, d := range []string{"", "x"} {
+						evals++
+						distinct++
+						perType["literal operands"]++
+						var got bool
+						var p any
+						func() {
+							defer func() { p = recover() }()
+							got = f.f(a, b, c, d)
+						}()
+						in := fmt.Sprintf("%s with a=%d b=%q c=%d d=%q", f.name, a, b, c, d)
+						if p != nil {
+							viol("literal-operands-panic:"+f.name, "a comparison of literals panics", map[string]any{"input": in, "panic": fmt.Sprint(p)})
+						} else if got != f.want(a, b, c, d) {
+							viol("literal-operands-wrong:"+f.name, fmt.Sprintf("`%s` is %v where structural equality gives %v", f.name, got, f.want(a, b, c, d)), map[string]any{"input": in})
+						}
+					}
+				}
+			}
+		}
+	}
+}
+
 func sliceOfSlices(depth int) []val[[][]int] {
 	in := sample(intSlices(depth), 16)
 	var vs []val[[][]int]
@@ -508,6 +557,9 @@ func Run() {
 	checkType("Folang = on W (emitted)", ws(depth), EqW, nil, 0)
 	checkType("Folang = on int*U (emitted)", tupUs(depth), EqTupU, nil, 0)
 	checkType("Folang = / <> on Tr (emitted)", trees(depth), EqTr, NeTr, 0)
+	if onlyFam < 0 {
+		literalOperands()
+	}
 	if onlyFam >= 0 {
 		emit(map[string]any{"t": "stat", "k": fmt.Sprintf("isolated_family_%02d", onlyFam), "v": perType})
 		emit(map[string]any{"t": "done", "evals": evals, "distinct": distinct})
